@@ -1,7 +1,398 @@
-/- Model `Replay` (driver token `replay`) — stub, to be filled in. -/
-namespace Stab.Replay
+/-
+  Model of `stabilize.events.replay.EventReplayer` (pure fold over the event log).
 
-/-- driver entry: the rest of the request line after the model token -/
-def drive (_rest : String) : String := "unimplemented"
+  * An `Event` carries what `_apply_event` reads: sequence, entity type, entity id, event type,
+    timestamp, the scalar keys of `event.data` (`Dict`, values are opaque tokens, `"null"` = JSON
+    null / Python `None`) and `event.data["context"]` when present (a dict).
+  * `State` is `WorkflowState`: five scalar fields, the context dict, and the two id-keyed dicts
+    `stages` / `tasks` (insertion ordered, like Python dicts), each entry a `Dict`.
+  * `apply` mirrors `_apply_event` -> `_apply_{workflow,stage,task}_event` branch by branch
+    (the event migrator is the identity when no migration is registered: trusted base).
+  * The log is the `events` table restricted to one workflow in `ORDER BY sequence ASC` order
+    (sequence is the INTEGER PRIMARY KEY, so the order is strict).
+  * `rebuild` mirrors `rebuild_workflow_state(workflow_id, as_of_sequence)` with an optional latest
+    snapshot; `loadsTimes` says whether `_load_state_from_snapshot` restores `start_time/end_time`
+    (the source as shipped does not: generated flag `Stab.Gen.EventMap.snapshotLoadsTimes`).
+-/
+import Stab.Model.Basic
+
+namespace Stab.Replay
+open Stab
+
+/-! ### dictionaries (Python `dict` with string keys, insertion ordered) -/
+
+abbrev Dict := List (String × String)
+
+namespace Dict
+def get (d : Dict) (k : String) : Option String :=
+  match d with
+  | [] => none
+  | (k', v) :: rest => if k' == k then some v else get rest k
+
+def has (d : Dict) (k : String) : Bool := (get d k).isSome
+
+/-- `d[k] = v` -/
+def set (d : Dict) (k v : String) : Dict :=
+  match d with
+  | [] => [(k, v)]
+  | (k', v') :: rest => if k' == k then (k', v) :: rest else (k', v') :: set rest k v
+
+/-- `d.update(other)` -/
+def update (d other : Dict) : Dict := other.foldl (fun acc kv => set acc kv.1 kv.2) d
+end Dict
+
+/-- id-keyed dict of entity dicts (`state.stages`, `state.tasks`) -/
+abbrev EntMap := List (String × Dict)
+
+namespace EntMap
+def get (m : EntMap) (id : String) : Option Dict :=
+  match m with
+  | [] => none
+  | (i, d) :: rest => if i == id then some d else get rest id
+
+/-- `if id not in m: m[id] = init`; then `m[id] = f m[id]` -/
+def upsert (m : EntMap) (id : String) (init : Dict) (f : Dict → Dict) : EntMap :=
+  match m with
+  | [] => [(id, f init)]
+  | (i, d) :: rest => if i == id then (i, f d) :: rest else (i, d) :: upsert rest id init f
+end EntMap
+
+/-! ### events -/
+
+/-- `EntityType` -/
+inductive Kind where
+  | workflow | stage | task
+  deriving DecidableEq, Repr, Inhabited
+
+/-- `EventType` (declaration order of the Python enum) -/
+inductive EType where
+  | workflowCreated | workflowStarted | workflowCompleted | workflowFailed | workflowCanceled
+  | workflowPaused | workflowResumed
+  | stageStarted | stageCompleted | stageFailed | stageSkipped | stageCanceled
+  | taskStarted | taskCompleted | taskFailed | taskRetried
+  | statusChanged | contextUpdated | outputsUpdated | jumpExecuted | custom
+  deriving DecidableEq, Repr, Inhabited
+
+namespace EType
+def all : List EType :=
+  [workflowCreated, workflowStarted, workflowCompleted, workflowFailed, workflowCanceled,
+   workflowPaused, workflowResumed, stageStarted, stageCompleted, stageFailed, stageSkipped,
+   stageCanceled, taskStarted, taskCompleted, taskFailed, taskRetried, statusChanged,
+   contextUpdated, outputsUpdated, jumpExecuted, custom]
+
+/-- the Python member NAME -/
+def name : EType → String
+  | workflowCreated => "WORKFLOW_CREATED" | workflowStarted => "WORKFLOW_STARTED"
+  | workflowCompleted => "WORKFLOW_COMPLETED" | workflowFailed => "WORKFLOW_FAILED"
+  | workflowCanceled => "WORKFLOW_CANCELED" | workflowPaused => "WORKFLOW_PAUSED"
+  | workflowResumed => "WORKFLOW_RESUMED"
+  | stageStarted => "STAGE_STARTED" | stageCompleted => "STAGE_COMPLETED"
+  | stageFailed => "STAGE_FAILED" | stageSkipped => "STAGE_SKIPPED" | stageCanceled => "STAGE_CANCELED"
+  | taskStarted => "TASK_STARTED" | taskCompleted => "TASK_COMPLETED" | taskFailed => "TASK_FAILED"
+  | taskRetried => "TASK_RETRIED"
+  | statusChanged => "STATUS_CHANGED" | contextUpdated => "CONTEXT_UPDATED"
+  | outputsUpdated => "OUTPUTS_UPDATED" | jumpExecuted => "JUMP_EXECUTED" | custom => "CUSTOM"
+
+def ofName? (s : String) : Option EType := all.find? (fun x => x.name == s)
+end EType
+
+namespace Kind
+def name : Kind → String
+  | workflow => "WORKFLOW" | stage => "STAGE" | task => "TASK"
+def letter : Kind → String
+  | workflow => "W" | stage => "S" | task => "T"
+def ofLetter? : String → Option Kind
+  | "W" => some workflow | "S" => some stage | "T" => some task | _ => none
+end Kind
+
+structure Event where
+  seq : Nat
+  kind : Kind
+  eid : String
+  etype : EType
+  ts : String
+  data : Dict := []
+  ctx : Option Dict := none
+  deriving Repr, Inhabited
+
+/-- `event.data.get(k)` -/
+def Event.dget (e : Event) (k : String) : String := (Dict.get e.data k).getD "null"
+/-- `event.data.get(k, dflt)` -/
+def Event.dgetD (e : Event) (k dflt : String) : String := (Dict.get e.data k).getD dflt
+
+/-! ### state -/
+
+structure State where
+  status : String := "null"
+  application : String := "null"
+  name : String := "null"
+  startTime : String := "null"
+  endTime : String := "null"
+  context : Dict := []
+  stages : EntMap := []
+  tasks : EntMap := []
+  deriving Repr, Inhabited, DecidableEq
+
+def State.empty : State := {}
+
+/-- the effect of one event type on the `status` field, as a table
+    (`Props/C12` proves it equal to the table generated from `replay.py`) -/
+inductive StatusEffect where
+  | const (s : String)        -- status = "S"
+  | data (dflt : String)      -- status = event.data.get("status", dflt)
+  | none                      -- status untouched
+  deriving DecidableEq, Repr
+
+def statusEffect : Kind → EType → StatusEffect
+  | .workflow, .workflowStarted => .const "RUNNING"
+  | .workflow, .workflowCompleted => .data "SUCCEEDED"
+  | .workflow, .workflowFailed => .data "TERMINAL"
+  | .workflow, .workflowCanceled => .const "CANCELED"
+  | .workflow, .workflowPaused => .const "PAUSED"
+  | .workflow, .workflowResumed => .const "RUNNING"
+  | .stage, .stageStarted => .const "RUNNING"
+  | .stage, .stageCompleted => .data "SUCCEEDED"
+  | .stage, .stageFailed => .data "TERMINAL"
+  | .stage, .stageSkipped => .const "SKIPPED"
+  | .stage, .stageCanceled => .const "CANCELED"
+  | .task, .taskStarted => .const "RUNNING"
+  | .task, .taskCompleted => .data "SUCCEEDED"
+  | .task, .taskFailed => .data "TERMINAL"
+  | _, _ => .none
+
+/-- the value `statusEffect` writes for event `e` -/
+def StatusEffect.value (eff : StatusEffect) (e : Event) : Option String :=
+  match eff with
+  | .const s => some s
+  | .data d => some (e.dgetD "status" d)
+  | .none => Option.none
+
+/-- `state.context.update(event.data["context"])` when the key is present -/
+def mergeCtx (c : Dict) (e : Event) : Dict :=
+  match e.ctx with
+  | some u => Dict.update c u
+  | none => c
+
+/-- `_apply_workflow_event` -/
+def applyWorkflow (s : State) (e : Event) : State :=
+  match e.etype with
+  | .workflowCreated => { s with application := e.dget "application", name := e.dget "name" }
+  | .workflowStarted => { s with startTime := e.ts, status := "RUNNING", context := mergeCtx s.context e }
+  | .workflowCompleted => { s with endTime := e.ts, status := e.dgetD "status" "SUCCEEDED" }
+  | .workflowFailed => { s with endTime := e.ts, status := e.dgetD "status" "TERMINAL" }
+  | .workflowCanceled => { s with endTime := e.ts, status := "CANCELED" }
+  | .workflowPaused => { s with status := "PAUSED" }
+  | .workflowResumed => { s with status := "RUNNING" }
+  | .contextUpdated => { s with context := mergeCtx s.context e }
+  | _ => s
+
+/-- the dict assignments of `_apply_stage_event` after the entry exists -/
+def stageFields (e : Event) (d : Dict) : Dict :=
+  match e.etype with
+  | .stageStarted => (d.set "status" "RUNNING").set "start_time" e.ts
+  | .stageCompleted =>
+    let d := (d.set "status" (e.dgetD "status" "SUCCEEDED")).set "end_time" e.ts
+    if Dict.has e.data "outputs" then d.set "outputs" (e.dget "outputs") else d
+  | .stageFailed =>
+    ((d.set "status" (e.dgetD "status" "TERMINAL")).set "end_time" e.ts).set "error" (e.dget "error")
+  | .stageSkipped => (d.set "status" "SKIPPED").set "skip_reason" (e.dget "reason")
+  | .stageCanceled => d.set "status" "CANCELED"
+  | _ => d
+
+/-- entry created for a stage id not seen before -/
+def stageInit (e : Event) : Dict :=
+  [("id", e.eid), ("ref_id", e.dget "ref_id"), ("type", e.dget "type"), ("name", e.dget "name")]
+
+/-- `_apply_stage_event` -/
+def applyStage (s : State) (e : Event) : State :=
+  { s with stages := EntMap.upsert s.stages e.eid (stageInit e) (stageFields e) }
+
+/-- `task.get("retry_count", 0) + 1` (retry counts are JSON integers) -/
+def nextRetry (d : Dict) : String :=
+  toString ((((Dict.get d "retry_count").bind String.toNat?).getD 0) + 1)
+
+def taskFields (e : Event) (d : Dict) : Dict :=
+  match e.etype with
+  | .taskStarted => (d.set "status" "RUNNING").set "start_time" e.ts
+  | .taskCompleted =>
+    let d := (d.set "status" (e.dgetD "status" "SUCCEEDED")).set "end_time" e.ts
+    if Dict.has e.data "outputs" then d.set "outputs" (e.dget "outputs") else d
+  | .taskFailed =>
+    ((d.set "status" (e.dgetD "status" "TERMINAL")).set "end_time" e.ts).set "error" (e.dget "error")
+  | .taskRetried => d.set "retry_count" (e.dgetD "retry_count" (nextRetry d))
+  | _ => d
+
+def taskInit (e : Event) : Dict :=
+  [("id", e.eid), ("name", e.dget "name"), ("stage_id", e.dget "stage_id")]
+
+/-- `_apply_task_event` -/
+def applyTask (s : State) (e : Event) : State :=
+  { s with tasks := EntMap.upsert s.tasks e.eid (taskInit e) (taskFields e) }
+
+/-- `_apply_event` -/
+def apply (s : State) (e : Event) : State :=
+  match e.kind with
+  | .workflow => applyWorkflow s e
+  | .stage => applyStage s e
+  | .task => applyTask s e
+
+/-- fold of a list of events, left to right -/
+def replay (s : State) (evs : List Event) : State := evs.foldl apply s
+
+/-! ### rebuild -/
+
+structure Snapshot where
+  seq : Nat
+  state : State      -- the dict handed to `create_workflow_snapshot` (`WorkflowState.to_dict()` format)
+  deriving Repr
+
+/-- `_load_state_from_snapshot` (status, application, name, context, stages, tasks; and
+    start/end time only when `loadsTimes`) -/
+def load (loadsTimes : Bool) (sn : Snapshot) : State :=
+  if loadsTimes then sn.state else { sn.state with startTime := "null", endTime := "null" }
+
+/-- `get_events_for_workflow(workflow_id, from_sequence)`: `sequence > ?`, in table order -/
+def eventsAfter (log : List Event) (start : Nat) : List Event := log.filter (fun e => e.seq > start)
+
+/-- `[e for e in ... if e.sequence <= as_of_sequence]` / all when `as_of_sequence is None` -/
+def upTo (evs : List Event) : Option Nat → List Event
+  | some n => evs.filter (fun e => e.seq ≤ n)
+  | none => evs
+
+/-- is the latest snapshot usable: `as_of_sequence is None or snapshot.sequence <= as_of_sequence` -/
+def snapshotUsable (sn : Snapshot) : Option Nat → Bool
+  | some n => sn.seq ≤ n
+  | none => true
+
+/-- `rebuild_workflow_state(workflow_id, as_of_sequence)` with the latest snapshot `snap?` -/
+def rebuild (loadsTimes : Bool) (log : List Event) (asOf : Option Nat) (snap? : Option Snapshot) : State :=
+  match snap? with
+  | some sn =>
+    if snapshotUsable sn asOf then replay (load loadsTimes sn) (upTo (eventsAfter log sn.seq) asOf)
+    else replay State.empty (upTo (eventsAfter log 0) asOf)
+  | none => replay State.empty (upTo (eventsAfter log 0) asOf)
+
+/-- status of an entity in a rebuilt state (`none`: the replayer has no status for it) -/
+def statusOf (s : State) (k : Kind) (id : String) : Option String :=
+  match k with
+  | .workflow => some s.status
+  | .stage => (EntMap.get s.stages id).bind (Dict.get · "status")
+  | .task => (EntMap.get s.tasks id).bind (Dict.get · "status")
+
+/-! ### text protocol
+
+  event   `seq:K:eid:ETYPE:ts:data:ctx`   K ∈ W,S,T; data `k=v,k=v` | `-`; ctx `none` | dict
+  events  `e;e;…` | `-`
+  state   `status;application;name;start;end;ctx;stages;tasks`, stages `id>dict/id>dict` | `-`
+
+  `replay run <loadsTimes 0|1> <events> <queries>`     queries `q;q;…`, q = `a<n|n>` (no snapshot, as-of) or
+                                                       `s<k>a<n|n>` (snapshot := the model's own state as of k, sequence k);
+                                                       answer: states joined by `|`
+  `replay snap <loadsTimes> <events> <asOf|n> <snapSeq> <state>`   explicit snapshot state
+  `replay status <events> <K> <id>`                    statusOf the full replay (`-` when absent)
+-/
+
+def showDict (d : Dict) : String :=
+  if d.isEmpty then "-" else ",".intercalate (d.map (fun kv => kv.1 ++ "=" ++ kv.2))
+
+def showEnts (m : EntMap) : String :=
+  if m.isEmpty then "-" else "/".intercalate (m.map (fun p => p.1 ++ ">" ++ showDict p.2))
+
+def showState (s : State) : String :=
+  ";".intercalate [s.status, s.application, s.name, s.startTime, s.endTime, showDict s.context,
+                   showEnts s.stages, showEnts s.tasks]
+
+def parseKV (s : String) : Option (String × String) :=
+  match s.splitOn "=" with
+  | [k, v] => if k.isEmpty || v.isEmpty then none else some (k, v)
+  | _ => none
+
+def parseDict (s : String) : Option Dict :=
+  if s == "-" then some [] else Parse.all? parseKV (s.splitOn ",")
+
+def parseEvent (s : String) : Option Event :=
+  match s.splitOn ":" with
+  | [sq, k, eid, et, ts, data, ctx] => do
+    let seq ← Parse.nat? sq
+    let kind ← Kind.ofLetter? k
+    let etype ← EType.ofName? et
+    let data ← parseDict data
+    let ctx ← (if ctx == "none" then some none else (parseDict ctx).map some)
+    if eid.isEmpty || ts.isEmpty then none else
+    pure { seq, kind, eid, etype, ts, data, ctx }
+  | _ => none
+
+def parseEvents (s : String) : Option (List Event) :=
+  if s == "-" then some [] else Parse.all? parseEvent (s.splitOn ";")
+
+/-- the table order is strictly increasing in `sequence` -/
+def sortedStrict : List Event → Bool
+  | [] => true
+  | [_] => true
+  | a :: b :: rest => decide (a.seq < b.seq) && sortedStrict (b :: rest)
+
+def parseEnt (s : String) : Option (String × Dict) :=
+  match s.splitOn ">" with
+  | [i, d] => do
+    let d ← parseDict d
+    if i.isEmpty then none else pure (i, d)
+  | _ => none
+
+def parseEnts (s : String) : Option EntMap :=
+  if s == "-" then some [] else Parse.all? parseEnt (s.splitOn "/")
+
+def parseState (s : String) : Option State :=
+  match s.splitOn ";" with
+  | [st, app, nm, t0, t1, ctx, stages, tasks] => do
+    let context ← parseDict ctx
+    let stages ← parseEnts stages
+    let tasks ← parseEnts tasks
+    if st.isEmpty || app.isEmpty || nm.isEmpty || t0.isEmpty || t1.isEmpty then none else
+    pure { status := st, application := app, name := nm, startTime := t0, endTime := t1, context, stages, tasks }
+  | _ => none
+
+def parseAsOf (s : String) : Option (Option Nat) :=
+  if s == "n" then some none else (Parse.nat? s).map some
+
+/-- `a<asOf>` or `s<k>a<asOf>` -/
+def parseQuery (s : String) : Option (Option Nat × Option Nat) :=
+  if s.startsWith "a" then do
+    let a ← parseAsOf (s.drop 1).toString
+    pure (none, a)
+  else if s.startsWith "s" then
+    match ((s.drop 1).toString).splitOn "a" with
+    | [k, a] => do
+      let k ← Parse.nat? k
+      let a ← parseAsOf a
+      pure (some k, a)
+    | _ => none
+  else none
+
+def runQuery (lt : Bool) (log : List Event) (q : Option Nat × Option Nat) : State :=
+  match q.1 with
+  | none => rebuild lt log q.2 none
+  | some k => rebuild lt log q.2 (some { seq := k, state := rebuild lt log (some k) none })
+
+def drive (rest : String) : String :=
+  match rest.splitOn " " with
+  | ["run", lt, evs, qs] =>
+    match Parse.bool? lt, parseEvents evs, Parse.all? parseQuery (qs.splitOn ";") with
+    | some lt, some log, some qs =>
+      if !sortedStrict log then "bad-request"
+      else "|".intercalate (qs.map (fun q => showState (runQuery lt log q)))
+    | _, _, _ => "bad-request"
+  | ["snap", lt, evs, asOf, k, st] =>
+    match Parse.bool? lt, parseEvents evs, parseAsOf asOf, Parse.nat? k, parseState st with
+    | some lt, some log, some asOf, some k, some st =>
+      if !sortedStrict log then "bad-request"
+      else showState (rebuild lt log asOf (some { seq := k, state := st }))
+    | _, _, _, _, _ => "bad-request"
+  | ["status", evs, k, id] =>
+    match parseEvents evs, Kind.ofLetter? k with
+    | some log, some k =>
+      if !sortedStrict log then "bad-request"
+      else (statusOf (rebuild false log none none) k id).getD "-"
+    | _, _ => "bad-request"
+  | _ => "bad-request"
 
 end Stab.Replay
